@@ -12,6 +12,7 @@ mod p_hist;
 mod p_num;
 mod p_ser;
 mod p_simd;
+mod p_t2;
 mod p_typed;
 mod types;
 mod sval;
@@ -38,7 +39,10 @@ fn main() {
             let mut out = out::Out::new(dir);
             match prop.as_str() {
                 "C02" => p_c02::run(&mut out, tier, seed),
-                "C09" => p_c09::run(&mut out, tier, seed),
+                "C09" => {
+                    p_c09::run(&mut out, tier, seed);
+                    p_t2::strs(&mut out, tier, seed);
+                }
                 "C20" => p_c20::run(&mut out, tier, seed),
                 "C01" => {
                     p_c01::run(&mut out, tier, seed);
@@ -53,15 +57,24 @@ fn main() {
                     out.case("expect", &["nesting of 200000 levels is an error, not a stack overflow (child process)"], &verdict, true);
                 }
                 "C18" => p_cas::run(&mut out, tier, seed),
-                "C17" => p_simd::run(&mut out, tier, seed),
+                "C17" => {
+                    p_simd::run(&mut out, tier, seed);
+                    p_t2::simd(&mut out, tier, seed);
+                }
                 "C04" => p_typed::run_c04(&mut out, tier, seed),
                 "C19" => p_typed::run_c19(&mut out, tier, seed),
                 "C15" => p_hist::run_c15(&mut out, tier, seed),
                 "C16" => p_hist::run_c16(&mut out, tier, seed),
                 "C05" => p_ser::run(&mut out, tier, seed),
-                "C07" => p_num::run_c07(&mut out, tier, seed),
+                "C07" => {
+                    p_num::run_c07(&mut out, tier, seed);
+                    p_t2::num(&mut out, tier, seed);
+                }
                 "C08" => p_num::run_c08(&mut out, tier, seed),
-                "C03" => p_dom::run_c03(&mut out, tier, seed),
+                "C03" => {
+                    p_dom::run_c03(&mut out, tier, seed);
+                    p_t2::dom(&mut out, tier, seed);
+                }
                 "C06" => p_dom::run_c06(&mut out, tier, seed),
                 "C13" => p_dom::run_c13(&mut out, tier, seed),
                 "C10" => p_get::run_c10(&mut out, tier, seed),
